@@ -391,13 +391,18 @@ AcceptIterNew(c, kind, valid, o) ==
 EfiIt(c) == EffGet(c.mem, "efi_mmap").it
 ElfIt(c) == EffGet(c.mem, "elf").it
 HasTagIt(c, kind) == EffGet(c.mem, kind).k \in {"must", "free"}
+\* The getter withholds the map while a boot-services tag is present; the walk-and-cast route (via = "cast") does not.
+\* An iterator over a withheld map can only have come from that route: nothing but a controlled outcome is demanded of it.
+EfiViaOnly(c, o) == GetSpec(c.mem, "efi_mmap").k \in {"must", "free"} /\ Controlled(o)
 C18_Accept(c, trk, call, o) ==
-  CASE call.op = "efi_areas" ->
+  CASE call.op = "efi_areas" /\ Has(call, "via") /\ trk.loaded = "bi" /\ EffGet(c.mem, "efi_mmap").k # GetSpec(c.mem, "efi_mmap").k ->
+         Controlled(o)
+    [] call.op = "efi_areas" ->
          IF trk.loaded # "bi" THEN o.k = "skipped"
          ELSE AcceptIterNew(c, "efi_mmap", HasTagIt(c, "efi_mmap") /\ EfiValid(EfiParams(c.mem, EfiIt(c))), o)
     [] call.op \in {"nth", "count", "last"} /\ HasIt(trk, call.it) /\ ItOf(trk, call.it).kind = "efi" ->
          LET s == ItOf(trk, call.it) IN
-         IF ~HasTagIt(c, "efi_mmap") THEN FALSE
+         IF ~HasTagIt(c, "efi_mmap") THEN EfiViaOnly(c, o)
          ELSE LET p == EfiParams(c.mem, EfiIt(c)) IN
               IF ~EfiValid(p) THEN o.k = "panic" \/ (s.dead /\ o.k = "none")
               ELSE IF s.dead THEN TRUE
@@ -408,7 +413,7 @@ C18_Accept(c, trk, call, o) ==
               ELSE o.k = "none"
     [] call.op \in {"next", "len", "size_hint"} /\ HasIt(trk, call.it) /\ ItOf(trk, call.it).kind = "efi" ->
          LET s == ItOf(trk, call.it) IN
-         IF ~HasTagIt(c, "efi_mmap") THEN FALSE      \* an iterator over a tag that is not there
+         IF ~HasTagIt(c, "efi_mmap") THEN EfiViaOnly(c, o)      \* an iterator over a tag that is not there
          ELSE (CASE call.op = "next" -> AcceptEfiNext(c.mem, EfiIt(c), s.k, s.dead, o)
                  [] call.op = "len" -> AcceptEfiLen(c.mem, EfiIt(c), s.k, s.dead, o)
                  [] OTHER -> AcceptEfiHint(c.mem, EfiIt(c), s.k, s.dead, o))
@@ -463,6 +468,11 @@ SumSeq(xs) == IF xs = <<>> THEN 0 ELSE xs[1] + SumSeq(Tail(xs))
 ElfAllCount(mem) ==
   LET w == InfoWalk(mem)  ts == SelectSeq(w.items, LAMBDA it : it.typ = U32Bytes(9)) IN
   SumSeq([i \in 1..Len(ts) |-> Len(ElfItems(mem, ts[i], ElfParams(mem, ts[i])))])
+ElfAllOk(mem) ==
+  LET w == InfoWalk(mem)  ts == SelectSeq(w.items, LAMBDA it : it.typ = U32Bytes(9)) IN
+  /\ w.fin = "none"
+  /\ \A i \in 1..Len(ts) : /\ ts[i].size >= ElfBase
+                            /\ LET p == ElfParams(mem, ts[i]) IN ElfFits(p) /\ (p.n = 0 \/ p.es \in {40, 64})
 C19_Accept(c, trk, call, o) ==
   CASE call.op = "elf_sections" ->
          IF trk.loaded # "bi" THEN o.k = "skipped"
@@ -486,7 +496,8 @@ C19_Accept(c, trk, call, o) ==
     [] call.op = "dbg" /\ call.what \in {"elf", "bi"} /\ HasTagIt(c, "elf") -> Controlled(o)
     \* the sections of all ELF-sections tags as values: each equals itself and nothing else, == agrees with cmp and hash
     [] call.op = "elf_cmp" /\ trk.loaded = "bi" ->
-         o.k = "cmp" /\ o.n = ElfAllCount(c.mem) /\ o.eq = o.n /\ o.consistent = 1
+         IF ElfAllOk(c.mem) THEN o.k = "cmp" /\ o.n = ElfAllCount(c.mem) /\ o.eq = o.n /\ o.consistent = 1
+         ELSE Controlled(o)            \* some table does not fit / has a foreign entry size: a panic is in order
     [] OTHER -> TRUE
 \* calls on an iterator that was never created are recorded as skipped
 C_Skipped(c, trk, call, o) ==
@@ -1002,6 +1013,7 @@ DesignStep(c0, ds, call) ==
     [] call.op = "custom_get" -> [o |-> IF ds.loaded # "bi" THEN Skipped ELSE DesignCustomGet(c, call), ds |-> ds]
     [] call.op = "elf_cmp" ->
          [o |-> IF ds.loaded # "bi" THEN Skipped
+                ELSE IF ~ElfAllOk(c.mem) THEN Panic
                 ELSE LET n == ElfAllCount(c.mem) IN [k |-> "cmp", n |-> n, eq |-> n, consistent |-> 1], ds |-> ds]
     [] call.op = "slice_cast" ->
          LET d == Declared(c, HTAG)  r == DesignRefFromSlice(HTAG, Len(c.mem), Al(c), d) IN
